@@ -331,7 +331,13 @@ impl<'a> Parser<'a> {
             t => return Err(self.err(t, "Expected identifier, '*', '{', '[', '&', or '[?'", true)),
         } {
             self.advance();
-            self.parse_multi_list()
+            let mut left = self.parse_multi_list();
+            // Like every other right hand side of a dot, a multi-select list
+            // is followed by whatever binds tighter than the dot's context.
+            while lbp < self.peek(0).lbp() {
+                left = self.led(Box::new(left?));
+            }
+            left
         } else {
             self.expr(lbp)
         }
